@@ -4,7 +4,7 @@ from gen_util import *
 import pyref
 
 MODULES = ["WowSrp.Props.C17", "WowSrp.Props.Source.C17"]
-THEOREMS = ["C17_all_equal", "C17_generic", "C17_split_indep", "C17_one_buffer", "C17_reconnect", "C17_changed_input_collision", "C17_changed_input_collision_files", "C17_flipped_bit_is_change", "C17_reconnect_changed_salt_collision", "C17_source_layout"]
+THEOREMS = ["C17_all_equal", "C17_generic", "C17_split_indep", "C17_one_buffer", "C17_reconnect", "C17_changed_input_collision", "C17_changed_input_collision_files", "C17_flipped_bit_is_change", "C17_reconnect_changed_salt_collision", "C17_source_layout", "C17_source_no_hidden_state"]
 RULE = ("byte strings of length 0..4096 (thorough: up to 1 MiB) distributed over the five file arguments in random and boundary ways (empty files, splits at "
         "0, 1, 63, 64, 65 — the SHA-1/HMAC block edges), Windows, Mac and single-buffer entry points + reconnect check, compared with an independent "
         "SHA1(pk | HMAC-SHA1(salt, files)); single-bit changes of a file byte, the salt and the key must change the digest. "
@@ -53,6 +53,20 @@ def generate(rng, tier):
         cs.append(Case("integ.mac %s %s %s" % (" ".join(hx(x) for x in split5(rng, data)), bytes(s2).hex(), pk.hex()), "salt-bit-flip", pyref.integrity(data, bytes(s2), pk).hex() + " ~0", dict(n=L)))
         i = rng.randrange(256); p2 = bytearray(pk); p2[i // 8] ^= 1 << (i % 8)
         cs.append(Case("integ.gen %s %s %s" % (hx(data), salt.hex(), bytes(p2).hex()), "key-bit-flip", pyref.integrity(data, salt, bytes(p2)).hex() + " ~0", dict(n=L)))
+    # calls in a row with the same salt and same-length but different contents (nothing may be remembered between calls),
+    # and the two key values the SRP code refuses (the integrity hash has no such exception)
+    for L in (1, 50, 64, 300):
+        salt, pk = rbytes(rng, 16), rbytes(rng, 32)
+        for _ in range(6):
+            data = rbytes(rng, L)
+            cs.append(Case("integ.gen %s %s %s" % (hx(data), salt.hex(), pk.hex()), "same-salt-same-length-sequence", pyref.integrity(data, salt, pk).hex() + " ~0", dict(n=L)))
+            cs.append(Case("integ.win %s %s %s" % (" ".join(hx(x) for x in split5(rng, data)), salt.hex(), pk.hex()), "same-salt-same-length-sequence", pyref.integrity(data, salt, pk).hex() + " ~0", dict(n=L)))
+    for pk in (bytes(32), pyref.N_LE, bytes([0xff]) * 32):
+        for _ in range(4):
+            data, salt = rbytes(rng, rng.randint(0, 100)), rbytes(rng, 16)
+            which = rng.choice(["win", "mac"])
+            cs.append(Case("integ.gen %s %s %s" % (hx(data), salt.hex(), pk.hex()), "key-zero-or-N", pyref.integrity(data, salt, pk).hex() + " ~0", dict(n=len(data))))
+            cs.append(Case("integ.%s %s %s %s" % (which, " ".join(hx(x) for x in split5(rng, data)), salt.hex(), pk.hex()), "key-zero-or-N", pyref.integrity(data, salt, pk).hex() + " ~0", dict(n=len(data))))
     for _ in range(200):
         salt = special(16)
         cs.append(Case("integ.recon " + salt.hex(), "reconnect", pyref.integrity_reconnect(salt).hex() + " ~0"))
